@@ -53,7 +53,9 @@ Depth2 ==
   {VC("dict", s) : s \in {x \in DictsOver({VStr("a"), VStr("b")}, Items2, 2) :
                             (\E i \in 1..Len(x) : IsC(x[i].val)) /\ (Len(x) = 2 => x[1].key = VStr("a"))}} \cup
   {VC("set", << VC("tuple", <<VInt(1)>>) >>), VC("dict", << Entry(VC("tuple", <<VStr("a"), VInt(1)>>), VInt(1)) >>),
-   VC("dict", << Entry(VC("tuple", <<VStr("a"), VStr("a")>>), VInt(1)) >>)}
+   VC("dict", << Entry(VC("tuple", <<VStr("a"), VStr("a")>>), VInt(1)) >>),
+   VC("dict", << Entry(VC("tuple", <<VStr("a"), VC("tuple", <<VInt(1), VInt(1)>>)>>), VInt(1)) >>),
+   VC("dict", << Entry(VC("tuple", <<VStr("a"), VC("tuple", <<VInt(1), VInt(2)>>)>>), VStr("a")) >>)}
 
 Targets == Atoms0 \cup Depth1 \cup (IF TDepth >= 2 THEN Depth2 ELSE {})
 
@@ -93,7 +95,12 @@ KeysP == {PLit(VStr("a")), PLit(VInt(1)), PType("str"), PType("object"),
           PRequired(PType("str")), PRequired(PType("object")),
           PType("int"), PTuple(<<PLit(VStr("a")), PLit(VInt(1))>>), PTuple(<<PLit(VStr("a")), PType("int")>>),
           PM("!=", VStr("b")), POr(<<PLit(VStr("a")), PLit(VStr("b"))>>, "ctor", FALSE, VNone),
-          PRequired(PM("!=", VStr("b")))}
+          PRequired(PM("!=", VStr("b"))),
+          \* compound keys nested two levels: an equality key only if every member at every level is one
+          PTuple(<<PLit(VStr("a")), PTuple(<<PLit(VInt(1)), PType("int")>>)>>),
+          PTuple(<<PLit(VStr("a")), PTuple(<<PLit(VInt(1)), PLit(VInt(1))>>)>>),
+          PRequired(PTuple(<<PLit(VStr("a")), PTuple(<<PLit(VInt(1)), PM(">", VInt(0))>>)>>)),
+          POptional(VC("tuple", <<VStr("a"), VC("tuple", <<VInt(1), VInt(1)>>)>>), TRUE, VInt(5))}
 ValsP == IF Wide THEN {PType("int"), PType("object"), PLit(VInt(1))} ELSE {PType("int"), PType("object")}
 \* keys of the two-entry dict patterns
 KeysPP == {PLit(VStr("a")), PLit(VInt(1)), PType("str"), POptional(VStr("a"), TRUE, VInt(5)),
@@ -149,7 +156,20 @@ NestedMatch ==
    PSet(<<PMatch(PType("int"), FALSE, VNone)>>),
    PList(<<PMatch(PList(<<PType("int")>>), TRUE, VC("list", <<>>))>>)}
 
-P1 == Bools(Ls) \cup AndDefaults \cup EqMix \cup NestedMatch \cup {PNot(c, "ctor") : c \in Leaves} \cup Seqs(Ls) \cup Sets1 \cup
+\* Optional defaults that are containers (built afresh on every evaluation) or hold T (resolved
+\* against the dict being matched)
+OptL == POptional(VStr("a"), TRUE, VC("list", <<>>))
+OptD == POptional(VStr("b"), TRUE, VC("dict", << Entry(VStr("a"), VC("list", <<VInt(1)>>)) >>))
+OptT == POptional(VStr("b"), TRUE, VC("list", <<VTarg(<<>>), VInt(1)>>))
+ContainerDefaults ==
+  {PDict(<< <<o, PType("object")>> >>) : o \in {OptL, OptD, OptT}} \cup
+  {PDict(<< <<o, PType("object")>>, <<PType("str"), PType("int")>> >>) : o \in {OptL, OptD, OptT}} \cup
+  {PList(<<PDict(<< <<OptL, PType("list")>> >>)>>), PDict(<< <<PLit(VStr("a")), PDict(<< <<OptD, PType("object")>> >>)>> >>),
+   POr(<<PDict(<< <<OptL, PType("int")>> >>), PType("dict")>>, "ctor", FALSE, VNone),
+   PMatch(PType("int"), TRUE, VC("list", <<VTarg(<<>>)>>)),
+   PList(<<PMatch(PType("int"), TRUE, VC("dict", << Entry(VStr("a"), VTarg(<<>>)) >>))>>)}
+
+P1 == Bools(Ls) \cup AndDefaults \cup EqMix \cup NestedMatch \cup ContainerDefaults \cup {PNot(c, "ctor") : c \in Leaves} \cup Seqs(Ls) \cup Sets1 \cup
       {p \in DictPats(KeysP, Ls, KeysPP, ValsP) : DistinctKeys(p)}
 
 \* a selection of depth-1 patterns used as children at depth 2
@@ -190,11 +210,14 @@ Patterns == Leaves \cup P1 \cup (IF PDepth >= 2 THEN P2 ELSE {}) \cup (IF PDepth
 VARIABLES pattern, target, pred, phase
 vars == <<pattern, target, pred, phase>>
 
-DefaultValue == VInt(77)
+DefaultValue == VC("list", <<VInt(77), VTarg(<<>>)>>)          \* Match(p, default=[77, T])
 \* (the dumped form of an outcome lists errs as a sequence: `tlc -dump` sets are not parsed)
 Predict(t, p) ==
   [o  |-> Dumped(Ev("auto", t, PMatch(p, FALSE, VNone))),            \* glom(t, Match(p)) = verify(t)
-   od |-> Dumped(Ev("auto", t, PMatch(p, TRUE, DefaultValue)))]     \* glom(t, Match(p, default=77))
+   od |-> Dumped(Ev("auto", t, PMatch(p, TRUE, DefaultValue))),     \* glom(t, Match(p, default=[77, T]))
+   \* the same Match object once more, after the caller mutated the containers of the first result
+   o2 |-> Dumped(IF HasOptDefault(p) \/ HasNodeDefault(p) THEN EvAgain("auto", t, t, PMatch(p, FALSE, VNone))
+                 ELSE Ev("auto", t, PMatch(p, FALSE, VNone)))]
 
 Init == pattern = PType("object") /\ target = VNone /\ pred = Predict(VNone, PType("object")) /\ phase = 0
 ChoosePattern ==
@@ -251,6 +274,8 @@ ErrClass == Case => /\ LawErrs(O)
                                               ELSE PyCmp(pattern.cmp, target, pattern.rhs)) = "E" => O.errs = {"TypeError"})
 \* Match(default=) returns the default instead of a GlomError, and changes nothing else
 Default == Case => /\ (O.ok => OD = O)
-                   /\ (Caught(O) => OD.ok /\ OD.v = DefaultValue)
+                   /\ (Caught(O) => OD.ok /\ OD.v = VC("list", <<VInt(77), target>>))
                    /\ (Foreign(O) => OD.errs = O.errs)
+\* a pattern object carries no memory: evaluated again it decides and yields what it did
+Again == Case => pred.o2 = pred.o
 ====================================================================================
